@@ -2090,3 +2090,148 @@ def check_C11(ctx):
     ctx.coverage["samples"] = [repr(sorted(all_msgs)[i][:50]) for i in (0, len(all_msgs) // 2, -1)]
     ctx.coverage["evaluations"] = nA + nB + len(vobs)
     ctx.coverage["distinct_nontrivial"] = len(scens) + len(all_msgs) + len(all_names) + len(vol)
+
+
+# ---- C19: resource failures -------------------------------------------------------------------------
+FAULT_CALLS = ["fork", "pipe", "fcntl", "tmpfile", "write", "read", "msend", "mrecv"]
+
+
+def legs_of(scen):
+    """The run as the result channel sees it (lean/CgreenModel/Model/Faults.lean): one leg per test and per suite, in execution order."""
+    legs = []
+    single = scen.mode.split(":", 1)[1] if scen.mode.startswith("single:") else None
+
+    def has(su):
+        return any(t.name == single for _, t in su.tests())
+
+    def test_leg(t):
+        if t.x:
+            return "leg t 0 0 S"
+        recs, complete, sig = "", 1, 0
+        for a in t.body:
+            if a == "P": recs += "P"
+            elif a[0] in "FXY": recs += "F"
+            elif a == "S": recs += "S"
+            elif a[0] == "K": complete, sig = 0, 1; break
+            elif a in ("E", "U"): complete = 0; break
+        return f"leg t {complete} {sig} {recs or '-'}"
+
+    def walk(su):
+        for it in su.items:
+            if isinstance(it, S) and (single is None or has(it)): walk(it)
+        for it in su.items:
+            if not isinstance(it, S) and (single is None or it.name == single): legs.append(test_leg(it))
+        legs.append("leg s 1 0 -")
+    walk(scen.root)
+    return legs
+
+
+def check_C19(ctx):
+    lean_check(ctx)
+    bench = Bench(ctx)
+    shim = os.path.join(ctx.work, "faultshim.so")
+    r = sh(["gcc", "-shared", "-fPIC", "-O1", "-o", shim, os.path.join(HARNESS, "faultshim.c"), "-ldl"])
+    if r.returncode != 0:
+        raise BuildError("faultshim: " + r.stdout[-2000:])
+    trees = [
+        ("mixed", S("top", items=[S("inner", items=[T("a", body=["P", "F"]), T("b", body=["P"])]), T("c", body=["P", "P"]), T("d", body=["S", "P"]), T("x", x=1, body=["P"])]), "a"),
+        ("one failing test", S("top", items=[T("a", body=["F"])]), "a"),
+        ("nested", S("top", items=[S("in1", items=[S("in2", items=[T("a", body=["P"])])]), T("b", body=["F", "P", "F"]), T("c", body=["P"])]), "b"),
+        ("failing test last", S("top", items=[S("in1", items=[T("p", body=["P"])]), T("q", body=["P"]), T("z", body=["P", "F"])]), "z"),
+        ("with a crashing test", S("top", items=[T("a", body=["P"]), T("b", body=["F", "K11"]), T("c", body=["F"])]), "c"),
+        ("more results than the channel holds", S("top", items=[T("big", body=["P"] * 4200 + ["F"]), T("after", body=["F"])]), "after"),
+    ]
+    configs = []
+    for lab, root, single in trees:
+        for mode in ("fork", "inproc", f"single:{single}"):
+            if lab == "with a crashing test" and mode == "inproc":
+                continue
+            for rep in ("text", "xml"):
+                configs.append((lab, Scen(root, mode=mode), rep))
+
+    def run_one(job):
+        i, sc, rep, fault = job
+        wd = os.path.join(ctx.work, f"c19-{i}")
+        log = os.path.join(ctx.work, f"c19-{i}.log")
+        env = {"LD_PRELOAD": shim, "FAULT_LOG": log}
+        if fault: env["FAULT"] = fault
+        try:
+            o = run_impl(bench.exe, sc.text(), rep, wd, env=env, timeout=15)
+            try: o.faultlog = open(log).read().split("\n")
+            except OSError: o.faultlog = []
+            return o
+        finally:
+            shutil.rmtree(wd, ignore_errors=True)
+            try: os.unlink(log)
+            except OSError: pass
+    with ThreadPoolExecutor(max_workers=NCPU) as pool:
+        refs = list(pool.map(run_one, [(f"ref{i}", sc, rep, None) for i, (_, sc, rep) in enumerate(configs)]))
+    jobs, meta = [], []
+    reached = {c: 0 for c in FAULT_CALLS}
+    for ci, ((lab, sc, rep), o) in enumerate(zip(configs, refs)):
+        counts = {l.split(" ")[0]: int(l.split(" ")[1]) for l in o.faultlog if l and l.split(" ")[0] in FAULT_CALLS}
+        if o.timeout or status_of(o) in ("0", "exit0"):
+            ctx.oblige("C19 reference runs (shim loaded, no fault) end with a failing verdict", False, f"{lab} {sc.mode} {rep}: status {status_of(o)}, counters {counts}")
+            continue
+        if not counts:
+            continue      # the reference run itself is ended by a signal (too many results in one process): nothing to inject into
+        for call in FAULT_CALLS:
+            n = counts.get(call, 0)
+            reached[call] = max(reached[call], n)
+            ks = list(range(1, n + 1))
+            if n > 40:
+                ks = sorted(set(list(range(1, 9)) + [n // 2, n // 2 + 1] + list(range(n - 6, n + 1)) + ([4090, 4095, 4096, 4097, 4098] if n > 4100 else [])))
+                ks = [k for k in ks if 1 <= k <= n]
+                if ctx.tier == "thorough":
+                    ks = sorted(set(ks + list(range(1, n + 1, max(1, n // 150)))))
+            for k in ks:
+                jobs.append((f"{ci}-{call}-{k}", sc, rep, f"{call}:{k}")); meta.append((lab, sc, rep, call, k))
+    with ThreadPoolExecutor(max_workers=NCPU) as pool:
+        obs = list(pool.map(run_one, jobs))
+    shown = {}
+    nfired = 0
+    model_in, model_meta = [], []
+    for (lab, sc, rep, call, k), o in zip(meta, obs):
+        fired = [l for l in o.faultlog if l.startswith("fired ")]
+        if not fired:
+            continue
+        nfired += 1
+        st = status_of(o)
+        where = "test process" if fired[0].endswith(" 1") else "reporting process"
+        case = f"# reporter: {rep}   LD_PRELOAD=harness/faultshim.so FAULT={call}:{k} harness/scenario_run <file> {rep} <outdir>\n" + (sc.text() if len(sc.text()) < 3000 else sc.text()[:600] + "\n# ... (" + lab + ")")
+        what = None
+        if o.timeout:
+            what = "the run does not terminate (still running after 15 s)"
+        elif st in ("0", "exit0"):
+            what = f"the run reports success (status {st}) although a test fails"
+        if what:
+            key = (call, what[:20], sc.mode.split(":")[0])
+            if shown.get(key, 0) < 1:
+                shown[key] = 1
+                ctx.violation(f"[C19] {lab}, {sc.mode}, {rep} reporter, call #{k} of {call} fails (in the {where}): {what}", case, found_input=True,
+                              facts={"call": call, "mode": sc.mode.split(":")[0], "hang": bool(o.timeout)})
+        # correspondence: counters after a failing read, against the model
+        if rep == "text" and call in ("read", "fcntl") and st in ("0", "1") and not (call == "fcntl" and k == 1) and lab != "more results than the channel holds":
+            kk = k - 1 if call == "read" else k - 2
+            model_in.append("\n".join([f"k {kk}"] + legs_of(sc)) + "\n---\n"); model_meta.append((lab, sc, call, k, o))
+    ndis = 0
+    if model_in:
+        outs = run_model(["faults"], "".join(model_in)).split("\n")[:-1]
+        for (lab, sc, call, k, o), mo in zip(model_meta, outs):
+            w = mo.split(" ")
+            want = w[1:5]
+            got = observed_totals(o, "text")
+            if got is None or [str(int(x)) for x in got] != want:
+                ndis += 1
+                if ndis <= 3:
+                    ctx.oblige("correspondence C19 (counters after a failing read)", False, f"{lab} {sc.mode} {call}:{k}: model (passes failures skips exceptions) {want}, text reporter {got}")
+    ctx.oblige("correspondence C19: the totals of every run with a failing read are what the model says", ndis == 0, f"{ndis} of {len(model_in)} disagree")
+    ctx.oblige("C19: faults were injected and fired", nfired > 50, f"{nfired} fired")
+    ctx.coverage["correspondence"] = {"cases": len(model_in), "disagreements": ndis}
+    ctx.coverage["fault_runs"] = len(jobs)
+    ctx.coverage["faults_fired"] = nfired
+    ctx.coverage["calls_reached_in_reference_runs"] = reached
+    ctx.coverage["configurations"] = len(configs)
+    ctx.coverage["samples"] = [f"{m[0]} / {m[1].mode} / {m[2]} / {m[3]}:{m[4]}" for m in meta[:3]]
+    ctx.coverage["evaluations"] = len(jobs) + len(refs)
+    ctx.coverage["distinct_nontrivial"] = nfired
